@@ -63,13 +63,25 @@ example : ∃ rs, compareBisect Cfg.unfixed { base := [.int 1, .int 1, .int 2, .
 
 /-! ## `where` -/
 
+/-
+theorem where_eq_spec_full (cfg : Cfg) (t : Table) (pos : Option Op) (kws : List (Nat × Arg)) (R rs) :
+    t.rows = .ok R → whereS ⟨t.columns, R⟩ (kws.map (condOf pos)) = .ok rs →
+    ∃ t', t.pwhere cfg none pos kws = .ok t' ∧ t'.rows = .ok rs
+-- FALSE for the code as it is, in the pinned tree (P8…P12, see the `_counterexample`s below) and, for
+-- the conjuncts marked "every tree", also with all proposed repairs: rows not in index order after
+-- insert-after-index (P13, recorded), a probe that cannot be ordered against an indexed column,
+-- `None` / `Missing` probes.  `match` is outside the theorem altogether (regular expressions are
+-- not modelled beyond literal patterns; correspondence-checked only).  Hence the `_partial` form with
+-- the explicit decidable hypothesis `whereWF`.
+-/
+
 /-- **where = plain filter.**  For a well-formed call (`whereWF`, a decidable check listing the
 forced hypotheses) on a table or on a `where` result, with any number of keywords given
 positionally, as `{op: value}` or as callables, on indexed and unindexed columns:
 if the plain row-by-row evaluation `whereS` of the documented conditions is defined and keeps the
 rows `rs`, then `Table.where` succeeds and the table it returns shows exactly `rs` (same order,
 same multiplicity), with the same columns and indexes. -/
-theorem where_eq_spec (cfg : Cfg) (t : Table) (pos : Option Op) (kws : List (Nat × Arg))
+theorem where_eq_spec_partial (cfg : Cfg) (t : Table) (pos : Option Op) (kws : List (Nat × Arg))
     (R rs : List (List Cell)) (hwf : whereWF cfg t pos kws = true) (hR : t.rows = .ok R)
     (hspec : whereS { columns := t.columns, rows := R } (kws.map (condOf pos)) = .ok rs) :
     ∃ t', t.pwhere cfg Option.none pos kws = .ok t' ∧ t'.rows = .ok rs ∧
@@ -81,7 +93,7 @@ def exT : Table :=
   { columns := [0, 1], data := [(0, [.int 1, .int 1, .int 2, .missing]), (1, [.int 5, .int 6, .int 5, .int 7])],
     sel := .all, indexes := [0] }
 
-/-- the hypotheses of `where_eq_spec` are satisfiable, already for the pinned tree: two keywords,
+/-- the hypotheses of `where_eq_spec_partial` are satisfiable, already for the pinned tree: two keywords,
 one on the indexed column (bisect) and one on the other (scan) -/
 example : whereWF Cfg.unfixed exT Option.none [(1, .val (.scalar (.int 6))), (0, .dict .ge (.scalar (.int 2)))] = true := by
   decide +kernel
@@ -186,6 +198,15 @@ theorem where_missing_probe_counterexample :
 
 /-! ## `index` -/
 
+/-
+theorem index_spec_full (cfg : Cfg) (t : Table) (indx : List Nat) (R) : t.rows = .ok R →
+    ∃ t' R', t.index cfg indx = .ok t' ∧ t'.rows = .ok R' ∧ R'.Perm R ∧ (R' in index order)
+-- FALSE: `index('a','a')` alters rows in the pinned tree (P14), `index` with the column tuple the
+-- table already carries returns at once even if rows were inserted since (P13, every tree), cells
+-- that cannot be ordered make `sorted` raise, and `1`/`1.0` may change places between rows that
+-- agree on an earlier index column (so `Perm` holds only up to `==`).  Hence `_partial` with `indexWF`.
+-/
+
 /-- **index reorders, and orders.**  For a well-formed call (`indexWF`: a table that owns its lists,
 distinct index columns that differ from the current `_indexes`, cells of each index column
 mutually comparable and not `None`) `Table.index` succeeds, keeps the columns, reports the
@@ -193,7 +214,7 @@ requested indexes, and the rows it shows afterwards are the rows before in the o
 (a permutation): cell by cell equal up to Python's `==` (`1` and `1.0` may change places inside a
 group of an earlier index column), exactly equal in every column that is not an index column; and
 they are in non-decreasing lexicographic order of the index columns. -/
-theorem index_spec (cfg : Cfg) (t : Table) (indx : List Nat) (hwf : indexWF cfg t indx = true) :
+theorem index_spec_partial (cfg : Cfg) (t : Table) (indx : List Nat) (hwf : indexWF cfg t indx = true) :
     ∃ (t' : Table) (perm : List Nat) (R R' : List (List Cell)), t.index cfg indx = .ok t' ∧ t.rows = .ok R ∧ t'.rows = .ok R' ∧
       t'.columns = t.columns ∧ t'.indexes = effIndex cfg t indx ∧
       R'.length = R.length ∧ perm.Perm (List.range R.length) ∧
@@ -303,5 +324,28 @@ theorem view_compose (t : Table) (N : Nat) (hok : t.OK N) (select : List Nat)
       ∀ k, k < select.length → Table.rowAt { t with sel := sel' } k = t.rowAt (select.getD k 0) := by
   obtain ⟨sel', e, hidx, hselok⟩ := composeSel_spec t.sel N hok.sel select hinc (fun i hi => by simpa [Table.m] using hlt i hi)
   exact ⟨sel', e, ⟨hok.len, hok.cols, hselok⟩, fun k hk => rowAt_view t N hok sel' select hidx hlt k hk⟩
+
+/-! ## `insert` -/
+
+/-- **insert(rows)** on a table that owns its lists: afterwards the table shows the old rows followed
+by the inserted ones, unchanged; columns and `_indexes` are as before (which is exactly why
+insert-after-index leaves a table that claims an order it does not have: P13).
+(The dict and column-mapping shapes, which add and pad columns, are modelled and
+correspondence-checked but not covered by a theorem.) -/
+theorem insert_rows (cfg : Cfg) (t : Table) (N : Nat) (hok : t.OK N) (hsel : t.sel = .all)
+    (hnd : t.columns.Nodup) (hcne : t.columns ≠ []) (hkeys : ∀ p ∈ t.data, p.1 ∈ t.columns)
+    (r : List Cell) (rs : List (List Cell)) (hlen : ∀ x ∈ r :: rs, x.length = t.columns.length)
+    (R : List (List Cell)) (hR : t.rows = .ok R) :
+    ∃ t', t.insert cfg (.rows (r :: rs)) = .ok t' ∧ t'.rows = .ok (R ++ (r :: rs)) ∧
+      t'.columns = t.columns ∧ t'.indexes = t.indexes ∧ t'.OK (N + (r :: rs).length) :=
+  insert_rows_spec' cfg t N hok hsel hnd hcne hkeys r rs hlen R hR
+
+/-- P13 in one line of evaluation: index, insert, and the table is `exStale` -/
+theorem insert_after_index_counterexample :
+    (match ({ columns := [0], data := [(0, [.int 3, .int 1])], sel := .all, indexes := [] } : Table).index Cfg.fixed [0] with
+     | .ok t => (match t.insert Cfg.fixed (.rows [[.int 2], [.int 0]]) with
+                 | .ok t' => (t'.rows, t'.indexes)
+                 | .error e => (.error e, []))
+     | .error e => (.error e, [])) = (.ok [[.int 1], [.int 3], [.int 2], [.int 0]], [0]) := by decide +kernel
 
 end Coba.C17
